@@ -5,6 +5,9 @@ import re
 from .lib import PLUMBING, callee_allow, closure_args_of_call, lit_strs, operand_local, switches_on_value
 from .lib_c08 import Flow, Origins, _rv_operands, map_stores, mutators, field_reads, field_writes, gen_role, root_of
 
+# the one schemars generator of a document: `SchemaGenerator::new(settings)` or `settings.into_generator()` (the same constructor)
+GEN_CTOR = r"^schemars::(gen::)?SchemaGenerator::new$|^schemars::(gen::)?SchemaSettings::into_generator$"
+
 LEVEL = "other"
 TECHNIQUE = ("static analysis: source/sink flow (projection-carrying, mutation-aware slices) and per-iteration edge dominance on gen_openapi's MIR, role-anchored consumers of "
              "router.endpoints (adaptor chain or loop), sibling agreement between the document iterator and the router, decision-table extraction (method -> PathItem slot), "
@@ -786,11 +789,11 @@ def r4_refs_resolve(ctx):
     if D is None:
         ctx.lost(R, "the `definitions` side table (the IndexMap<String, Schema> whose entries are stored into components.schemas after the loop)")
         return
-    news = [(f, bb) for f in m.region for bb, t in f.live_calls(r"^schemars::SchemaGenerator::new$")]
-    ctx.check(R, "one-generator", len(news) == 1, "schemars::SchemaGenerator::new sites under gen_openapi: %d" % len(news), g)
+    news = [(f, bb) for f in m.region for bb, t in f.live_calls(GEN_CTOR)]
+    ctx.check(R, "one-generator", len(news) == 1, "schemars generator construction sites (SchemaGenerator::new / SchemaSettings::into_generator) under gen_openapi: %d" % len(news), g)
     for anchors, o, site in gen_flush:
         mp = bool(anchors) and g.must_pass(anchors)
-        ctx.check(R, "generator-definitions-flushed", mp and any(c.endswith("SchemaGenerator::new") for c in o.calls) and ("schemars::schema::RootSchema", "definitions") in o.fields,
+        ctx.check(R, "generator-definitions-flushed", mp and any(re.search(GEN_CTOR, c) for c in o.calls) and ("schemars::schema::RootSchema", "definitions") in o.fields,
                   "generator.into_root_schema_for().definitions is written to components.schemas on every path to return: %s" % mp, site)
     ctx.check(R, "generator-flush-present", len(gen_flush) == 1, "flushes of the generator's definitions: %d" % len(gen_flush), g, nontrivial=False)
     for anchors, o, site in def_flush:
@@ -855,7 +858,7 @@ def r4_refs_resolve(ctx):
                 okg = bool(ind)
                 for ibb, it in ind:
                     oa = m.flow.origins(f, it["args"][0])
-                    okg = okg and any(c.endswith("SchemaGenerator::new") for c in oa.calls)
+                    okg = okg and any(re.search(GEN_CTOR, c) for c in oa.calls)
                     if it.get("callee_op"):
                         okg = okg and (ASG, "schema") in m.flow.origins(f, it["callee_op"]).fields
                 ctx.check(R, "gen-uses-shared-generator:%s" % _role(f), okg, "the Gen arm calls the endpoint's schema function with the one shared generator: %s (%d call(s))" % (okg, len(ind)), (f, sb))
